@@ -142,12 +142,12 @@ def simplify_args(cur, sig, counter, deadline):
         def get(p, idx=idx):
             return list(each_op(p))[idx]
         o = get(cur)
-        if o["op"] in ("call", "func"):
-            specs = [o["arg"]] if o["op"] == "call" else o["args"]
+        if o["op"] in ("call", "func", "roundtrip"):
+            specs = [o["arg"]] if o["op"] != "func" else o["args"]
             for si in range(len(specs)):
                 def m_contig(p, si=si):
                     oo = get(p)
-                    sp = oo["arg"] if oo["op"] == "call" else oo["args"][si]
+                    sp = oo["arg"] if oo["op"] != "func" else oo["args"][si]
                     if sp.get("layout", "contig") == "contig":
                         return False
                     sp["layout"] = "contig"
@@ -156,7 +156,7 @@ def simplify_args(cur, sig, counter, deadline):
 
                 def m_nc(p, si=si):
                     oo = get(p)
-                    sp = oo["arg"] if oo["op"] == "call" else oo["args"][si]
+                    sp = oo["arg"] if oo["op"] != "func" else oo["args"][si]
                     if sp["shape"][0] == 1 and sp["shape"][1] == 1:
                         return False
                     sp["shape"][0] = 1
@@ -166,7 +166,7 @@ def simplify_args(cur, sig, counter, deadline):
 
                 def m_scale(p, si=si):
                     oo = get(p)
-                    sp = oo["arg"] if oo["op"] == "call" else oo["args"][si]
+                    sp = oo["arg"] if oo["op"] != "func" else oo["args"][si]
                     if sp.get("scale", 1.0) == 1.0:
                         return False
                     sp["scale"] = 1.0
